@@ -27,7 +27,7 @@ func c01(c *core.Check) {
 	groupGuardRule(c, r8)
 	r9 := c.Rule("R9", "the running quote depth, which indexes the quotes list, never becomes negative: every store into quoteDepth[0] is clamped at 0, adds a positive constant, or subtracts under a test that the depth is large enough", 2)
 	counterCellRule(c, r9)
-	r10 := c.Rule("R10", "sizes taken from the document are bounded before they size an allocation: colspan and rowspan are read within the limits of the HTML specification (the table grid and the collapsed-border grid are allocated with them), and every strings.Repeat of css/counters and text (pad symbols, symbolic and additive repetitions, the spaces measured for tab-size) has its count clamped by, or tested against, a constant", 6)
+	r10 := c.Rule("R10", "sizes taken from the document are bounded before they size an allocation: colspan and rowspan are read within the limits of the HTML specification (the table grid and the collapsed-border grid are allocated with them), and every strings.Repeat of css/counters and text (pad symbols, symbolic and additive repetitions, the spaces measured for tab-size) has its count clamped by, or tested against, a constant", 9)
 	spanBounds(c, r10)
 	padBoundRule(c, r10)
 	r11 := c.Rule("R11", "the last resort of counter rendering ends the recursion: the automatic range of a counter style, which is the range of decimal, is unbounded (its constant bounds are the smallest and the largest integer), so decimal never falls back to itself", 2)
